@@ -81,6 +81,11 @@ pub struct Block {
 pub struct Program {
     pub toks: Vec<GTok>,
     pub blocks: Vec<Block>,
+    /// token ranges (first, last) of statements whose control-flow header (the condition of
+    /// if/while/until/case, the bounds of for, the subject of with) contains an anonymous routine
+    pub header_anon_stmts: Vec<(usize, usize)>,
+    /// token ranges of `raise` statements whose expression contains an anonymous routine
+    pub raise_anon_stmts: Vec<(usize, usize)>,
     /// features used (for evidence)
     pub features: Vec<&'static str>,
     pub max_depth: u16,
@@ -98,6 +103,10 @@ pub struct GramOpts {
     /// probability (0..100) that an expression is made long
     pub long_expr_pct: u32,
     pub max_expr_depth: u32,
+    /// allow anonymous routines inside control-flow headers (legal, rare, poorly supported)
+    pub anon_in_headers: bool,
+    /// allow anonymous routines inside the expression of a raise statement
+    pub anon_in_raise: bool,
 }
 
 impl Default for GramOpts {
@@ -111,6 +120,8 @@ impl Default for GramOpts {
             allow_asm: false,
             long_expr_pct: 15,
             max_expr_depth: 3,
+            anon_in_headers: false,
+            anon_in_raise: false,
         }
     }
 }
@@ -143,6 +154,10 @@ pub struct Gen<'r> {
     /// nesting of anonymous routines (bounded)
     anon_depth: u32,
     upper_keywords: u32,
+    /// > 0 while generating a control-flow header expression
+    in_header: u32,
+    /// anonymous routines generated while in_header > 0
+    header_anons: u32,
 }
 
 type Anchors = Vec<usize>;
@@ -152,7 +167,7 @@ impl<'r> Gen<'r> {
         let budget = o.size as isize;
         // keyword casing style of this program: 0 lower, 1 Capitalised, 2 UPPER, 3 mixed per keyword
         let upper_keywords = *rng.pick(&[0u32, 0, 0, 1, 2, 3]);
-        Gen { rng, o, p: Program::default(), budget, depth: 0, anon_depth: 0, upper_keywords }
+        Gen { rng, o, p: Program::default(), budget, depth: 0, anon_depth: 0, upper_keywords, in_header: 0, header_anons: 0 }
     }
 
     fn feat(&mut self, f: &'static str) {
@@ -315,6 +330,48 @@ impl<'r> Gen<'r> {
             self.kw("set");
             self.kw("of");
             let w = *self.rng.pick(&["Byte", "Char", "TEnum", "TOption"]);
+            self.push(w, GK::Ident);
+        }
+    }
+
+    /// a type *identifier* (what Delphi requires for parameter and result types)
+    fn type_ident(&mut self, allow_open_array: bool) {
+        let r = self.rng.below(100);
+        if allow_open_array && r < 8 {
+            self.feat("open-array-parameter");
+            self.kw("array");
+            self.kw("of");
+            if self.rng.chance(1, 4) {
+                self.kw("const");
+            } else {
+                let w = *self.rng.pick(TYPE_NAMES);
+                self.push(w, GK::Ident);
+            }
+        } else if r < 60 {
+            let w = *self.rng.pick(TYPE_NAMES);
+            self.push(w, GK::Ident);
+        } else if r < 70 {
+            self.kw("string");
+        } else if r < 85 && self.o.allow_generics {
+            self.feat("generic-type-ref");
+            let w = *self.rng.pick(&["TList", "TDictionary", "TArray", "TFunc", "TObjectList"]);
+            self.push(w, GK::Ident);
+            let i = self.op("<");
+            self.p.toks[i].tight_left = true;
+            self.p.toks[i].tight_right = true;
+            let w = *self.rng.pick(TYPE_NAMES);
+            self.push(w, GK::Ident);
+            if self.rng.chance(1, 3) {
+                self.op(",");
+                self.kw("string");
+            }
+            let i = self.op(">");
+            self.p.toks[i].tight_left = true;
+        } else {
+            self.feat("qualified-type");
+            self.push("System", GK::Ident);
+            self.op(".");
+            let w = *self.rng.pick(TYPE_NAMES);
             self.push(w, GK::Ident);
         }
     }
@@ -510,7 +567,7 @@ impl<'r> Gen<'r> {
             if k > 0 {
                 self.op(",");
             }
-            if allow_anon && self.o.allow_anon && self.anon_depth < 2 && self.budget > 3 && self.rng.chance(1, 10) {
+            if allow_anon && self.o.allow_anon && self.anon_depth < 2 && self.budget > 3 && (self.in_header == 0 || self.o.anon_in_headers) && self.rng.chance(1, 10) {
                 self.anon_routine(d + 1);
             } else {
                 self.expr(d + 1);
@@ -638,6 +695,11 @@ impl<'r> Gen<'r> {
     fn anon_routine(&mut self, _d: u32) {
         self.feat("anonymous-routine");
         self.anon_depth += 1;
+        if self.in_header > 0 {
+            self.header_anons += 1;
+            self.feat("anonymous-routine-in-control-header-or-raise");
+        }
+        let saved_in_header = std::mem::replace(&mut self.in_header, 0);
         let is_func = self.rng.chance(1, 3);
         let kwi = self.kw(if is_func { "function" } else { "procedure" });
         if self.rng.chance(1, 2) {
@@ -645,7 +707,7 @@ impl<'r> Gen<'r> {
         }
         if is_func {
             self.op(":");
-            self.type_ref(1);
+            self.type_ident(false);
         }
         let saved_depth = self.depth;
         // local var section sometimes
@@ -655,7 +717,7 @@ impl<'r> Gen<'r> {
             self.depth += 1;
             self.plain_ident();
             self.op(":");
-            self.type_ref(1);
+            self.type_ident(false);
             self.semi();
             self.depth -= 1;
             let _ = v;
@@ -664,6 +726,7 @@ impl<'r> Gen<'r> {
         self.begin_end_block(BlockKind::AnonBegin, vec![kwi], n);
         self.depth = saved_depth;
         self.anon_depth -= 1;
+        self.in_header = saved_in_header;
     }
 
     fn param_list(&mut self) {
@@ -691,7 +754,7 @@ impl<'r> Gen<'r> {
                 self.plain_ident();
             }
             self.op(":");
-            self.type_ref(1);
+            self.type_ident(true);
             if k == n - 1 && self.rng.chance(1, 5) {
                 self.feat("default-parameter");
                 self.op("=");
@@ -702,6 +765,15 @@ impl<'r> Gen<'r> {
     }
 
     // ---------------------------------------------------------------- statements
+    /// generate a control-flow header expression; true if it contains an anonymous routine
+    fn header(&mut self, f: impl FnOnce(&mut Self)) -> bool {
+        let before = self.header_anons;
+        self.in_header += 1;
+        f(self);
+        self.in_header -= 1;
+        self.header_anons != before
+    }
+
     /// begin <n statements> end   (end is not followed by anything here)
     fn begin_end_block(&mut self, kind: BlockKind, anchors: Anchors, n: usize) -> (usize, usize) {
         let b = self.kw("begin");
@@ -746,6 +818,7 @@ impl<'r> Gen<'r> {
     fn statement_inner(&mut self, in_list: bool, outer_anchors: Anchors) -> usize {
         self.budget -= 1;
         let first = self.p.toks.len();
+        let mut own_header_anon = false;
         let simple_only = self.budget <= 0 || self.depth > 7;
         let r = if simple_only { self.rng.below(45) } else { self.rng.below(100) };
         let mut with_anchor = |me: usize| {
@@ -790,12 +863,17 @@ impl<'r> Gen<'r> {
                     self.op(".");
                     self.push("Create", GK::Ident);
                     self.op_tight("(");
-                    self.expr(1);
+                    let saved = std::mem::replace(&mut self.o.anon_in_headers, self.o.anon_in_raise);
+                    let has_anon = self.header(|g| g.expr(1));
+                    self.o.anon_in_headers = saved;
                     if self.rng.chance(1, 3) {
                         self.op(",");
                         self.set_lit(2);
                     }
                     self.op(")");
+                    if has_anon {
+                        self.p.raise_anon_stmts.push((first, self.p.toks.len() - 1));
+                    }
                 }
             }
             41..=42 => {
@@ -814,7 +892,7 @@ impl<'r> Gen<'r> {
                 self.plain_ident();
                 if self.rng.bool() {
                     self.op(":");
-                    self.type_ref(1);
+                    self.type_ident(false);
                 }
                 if self.rng.chance(2, 3) {
                     self.op(":=");
@@ -824,7 +902,7 @@ impl<'r> Gen<'r> {
             45..=59 => {
                 self.feat("if");
                 let me = self.kw("if");
-                self.expr(0);
+                own_header_anon |= self.header(|g| g.expr(0));
                 let _then = self.kw("then");
                 self.mark_line_end();
                 let anch = with_anchor(me);
@@ -839,7 +917,7 @@ impl<'r> Gen<'r> {
                         self.feat("else-if-chain");
                         // else if ... then body ; the nested if's blocks are anchored at `else`
                         let inner_if = self.kw("if");
-                        self.expr(0);
+                        own_header_anon |= self.header(|g| g.expr(0));
                         self.kw("then");
                         self.mark_line_end();
                         self.body(vec![inner_if, el]);
@@ -859,10 +937,10 @@ impl<'r> Gen<'r> {
                 }
                 self.plain_ident();
                 self.op(":=");
-                self.expr(1);
+                own_header_anon |= self.header(|g| g.expr(1));
                 let w = *self.rng.pick(&["to", "downto"]);
                 self.kw(w);
-                self.expr(1);
+                own_header_anon |= self.header(|g| g.expr(1));
                 self.kw("do");
                 self.mark_line_end();
                 let anch = with_anchor(me);
@@ -876,7 +954,7 @@ impl<'r> Gen<'r> {
                 }
                 self.plain_ident();
                 self.kw("in");
-                self.designator(1);
+                own_header_anon |= self.header(|g| g.designator(1));
                 self.kw("do");
                 self.mark_line_end();
                 let anch = with_anchor(me);
@@ -885,7 +963,7 @@ impl<'r> Gen<'r> {
             70..=74 => {
                 self.feat("while");
                 let me = self.kw("while");
-                self.expr(0);
+                own_header_anon |= self.header(|g| g.expr(0));
                 self.kw("do");
                 self.mark_line_end();
                 let anch = with_anchor(me);
@@ -894,10 +972,10 @@ impl<'r> Gen<'r> {
             75..=77 => {
                 self.feat("with");
                 let me = self.kw("with");
-                self.designator(1);
+                own_header_anon |= self.header(|g| g.designator(1));
                 if self.rng.chance(1, 4) {
                     self.op(",");
-                    self.designator(1);
+                    own_header_anon |= self.header(|g| g.designator(1));
                 }
                 self.kw("do");
                 self.mark_line_end();
@@ -920,7 +998,7 @@ impl<'r> Gen<'r> {
                 let u = self.kw("until");
                 self.mark_line_start(u);
                 self.p.blocks[bi].closer = Some(u);
-                self.expr(0);
+                own_header_anon |= self.header(|g| g.expr(0));
             }
             82..=88 => {
                 let me = self.kw("try");
@@ -995,7 +1073,7 @@ impl<'r> Gen<'r> {
             89..=93 => {
                 self.feat("case");
                 let me = self.kw("case");
-                self.designator(1);
+                own_header_anon |= self.header(|g| g.designator(1));
                 self.kw("of");
                 self.mark_line_end();
                 self.depth += 1;
@@ -1063,6 +1141,9 @@ impl<'r> Gen<'r> {
         }
         if in_list {
             self.semi();
+        }
+        if own_header_anon {
+            self.p.header_anon_stmts.push((first, self.p.toks.len() - 1));
         }
         first
     }
@@ -1168,7 +1249,7 @@ impl<'r> Gen<'r> {
         }
         if is_func {
             self.op(":");
-            self.type_ref(0);
+            self.type_ident(false);
         }
         self.semi();
         if self.rng.chance(1, 4) {
@@ -1214,11 +1295,12 @@ impl<'r> Gen<'r> {
             let first = self.p.toks.len();
             if self.rng.chance(1, 5) {
                 self.kw("strict");
+                let v = *self.rng.pick(&["private", "protected"]);
+                self.kw(v);
+            } else {
+                let v = *self.rng.pick(&["private", "protected", "public", "published"]);
+                self.kw(v);
             }
-            let v = *self.rng.pick(&["private", "protected", "public", "published"]);
-            let v = if self.p.toks.len() > first && v == "published" { "private" } else { v };
-            let v = if self.p.toks.len() > first && v == "public" { "protected" } else { v };
-            self.kw(v);
             self.mark_line_start(first);
             self.mark_line_end();
             let bi = self.p.blocks.len();
@@ -1268,7 +1350,7 @@ impl<'r> Gen<'r> {
                     self.op("]");
                 }
                 self.op(":");
-                self.type_ref(1);
+                self.type_ident(false);
                 self.kw("read");
                 self.new_name("F");
                 if self.rng.bool() {
@@ -1339,7 +1421,7 @@ impl<'r> Gen<'r> {
                     self.param_list();
                     if f {
                         self.op(":");
-                        self.type_ref(1);
+                        self.type_ident(false);
                     }
                     if self.rng.chance(1, 3) {
                         self.kw("of");
@@ -1456,7 +1538,7 @@ impl<'r> Gen<'r> {
         }
         if is_func {
             self.op(":");
-            self.type_ref(0);
+            self.type_ident(false);
         }
         self.semi();
         if !qualified && self.rng.chance(1, 6) {
